@@ -264,12 +264,17 @@ func mixScenarios(thorough bool) []vrt.Scenario {
 
 type sqlInst struct {
 	name string
+	kind string // medium: "" = sqlite-batch2
 	acts []string
 	st   string
 }
 
 func (m *sqlInst) Body() {
-	med, err := stores.NewMedium("sqlite-batch2")
+	kind := m.kind
+	if kind == "" {
+		kind = "sqlite-batch2"
+	}
+	med, err := stores.NewMedium(kind)
 	if err != nil {
 		panic(err)
 	}
@@ -283,6 +288,8 @@ func (m *sqlInst) Body() {
 	bus := eventbus.New(hd.BusOptions()...)
 	bp.Types[0].Sub(bus, 0, evt.SubOpts{})
 	bp.Types[0].Pub(bus, 1)
+	// a second owner of the same store object: another bus built over it
+	bus2 := eventbus.New(hd.BusOptions()...)
 	ev := func(i int) *eventbus.Event {
 		return &eventbus.Event{Type: "x", Data: json.RawMessage(fmt.Sprintf(`{"i":%d}`, i)), Timestamp: time.Unix(int64(i), 0)}
 	}
@@ -290,9 +297,14 @@ func (m *sqlInst) Body() {
 		"Append": func() { hd.Store.Append(bg, ev(2)) },
 		"Read":   func() { hd.Store.Read(bg, eventbus.OffsetOldest, 0) },
 		"ReadStream": func() {
+			if hd.Stream == nil {
+				hd.Store.Read(bg, eventbus.OffsetOldest, 1)
+				return
+			}
 			for range hd.Stream.ReadStream(bg, eventbus.OffsetOldest) {
 			}
 		},
+		"PublishOnAnotherBus": func() { bp.Types[0].Pub(bus2, 5) },
 		"SaveOffset":          func() { hd.Sub.SaveOffset(bg, "s", "1") },
 		"LoadOffset":          func() { hd.Sub.LoadOffset(bg, "s") },
 		"Publish":             func() { bp.Types[0].Pub(bus, 3) },
@@ -323,6 +335,22 @@ func sqlScenarios() []vrt.Scenario {
 			scs = append(scs, vrt.Scenario{Name: name, New: func() vrt.Instance { return &sqlInst{name: name, acts: acts} }})
 		}
 	}
+	// the other bundled stores, one store object with two owners: direct calls, a bus, a
+	// second bus over the same store
+	for _, kind := range []string{"durable", "memory"} {
+		names := []string{"Append", "Read", "ReadStream", "SaveOffset", "LoadOffset", "Publish", "PublishOnAnotherBus", "Replay"}
+		for i := range names {
+			for j := i; j < len(names); j++ {
+				acts := []string{names[i], names[j]}
+				name := kind + " " + names[i] + " || " + names[j]
+				kind := kind
+				scs = append(scs, vrt.Scenario{Name: name, New: func() vrt.Instance { return &sqlInst{name: name, kind: kind, acts: acts} }})
+			}
+		}
+	}
+	scs = append(scs, vrt.Scenario{Name: "sqlite Publish || PublishOnAnotherBus", New: func() vrt.Instance {
+		return &sqlInst{name: "sqlite Publish || PublishOnAnotherBus", acts: []string{"Publish", "PublishOnAnotherBus"}}
+	}})
 	return scs
 }
 
@@ -529,7 +557,7 @@ func progScenarios() []vrt.Scenario {
 func all(thorough bool) []vrt.Scenario {
 	l := append(mixScenarios(thorough), reScenarios(thorough)...)
 	l = append(l, progScenarios()...)
-	return append(l, sqlScenarios()...)
+	return append(append(l, sqlScenarios()...), longReplayScenarios()...)
 }
 
 func run(c *h.Check) {
